@@ -17,16 +17,26 @@
 (***************************************************************************)
 EXTENDS Naturals, Sequences, FiniteSets
 
-CONSTANT Keys        \* slab keys
+CONSTANT
+  \* @type: Set(Int);
+  Keys        \* slab keys
 
 VARIABLES
+  \* @type: Set(Int);
   tasks,       \* slab keys in use
+  \* @type: Seq(Int);
   rq,          \* the ready queue: sequence of keys, oldest first
+  \* @type: Str;
   phase,       \* "idle" | "run" (inside run_until_settled) | "popped" (a key taken, run_task entered) | "poll"
+  \* @type: Int;
   cur,         \* the key taken from the queue / being polled
+  \* @type: Bool;
   atTop,       \* at the top of the settle loop: spawn_new_tasks may run even if the queue is not empty
+  \* @type: Bool;
   wokeDuring,  \* the task being polled has been woken since its poll began
+  \* @type: Set(Int);
   pendingWake, \* keys woken and not polled (or removed) since: what "no wake-up is lost" is about
+  \* @type: <<Int, Int>>;
   lens         \* <<effects, events>> queued when the last settle ended
 
 pvars == <<tasks, rq, phase, cur, atTop, wokeDuring, pendingWake, lens>>
